@@ -246,7 +246,7 @@ def run(ctx):
                 pass
 
     # -------------------------------------------------------------------------------------------- scenario level
-    n = ctx.pick(60, 3000)
+    n = ctx.pick(150, 6000)
     for i, rng in ctx.cases("scenarios", n):
         G = Gen(rng)
         sc = Scenario(0.1)
